@@ -24,6 +24,15 @@ class Run:
         return [e for e in self.events if e['ev'] in names]
 
 
+import re as _re
+_FRESH = _re.compile(r'^x\d+__fresh$')
+
+
+def norm_fresh(tk):
+    ren = {}
+    return [ren.setdefault(t, f'x#{len(ren)}__fresh') if _FRESH.match(t) else t for t in tk]
+
+
 def sh_tokens(text):
     """Token sequence as the scripted command sees it (no literals with white space in e2e inputs)."""
     import re
